@@ -104,7 +104,7 @@ type c01TamperBase struct {
 	skZ      kem.PrivateKey // same key with another implicit-rejection secret (nil if the scheme has none)
 	skbZ     []byte
 	ct, ss   []byte
-	pqRanges [][2]int // ciphertext ranges of the components that own an implicit-rejection secret
+	pqRanges [][2]int   // ciphertext ranges of the components that own an implicit-rejection secret
 	foreign  []c01Named // ciphertexts made for the other key seeds
 	others   []c01Named // other honest ciphertexts of this key
 
